@@ -10,6 +10,8 @@
 //  2. pool histories: CreatePack(type, random version) / fill a random SUBSET of the fields
 //     (all, one, all but one, each with probability q) / ClosePack / CreatePack at another
 //     version; on pointer-identical reuse every field must be blank.
+//     2b (poolconc.go): the same pools used by 4…4×GOMAXPROCS goroutines at once: an acquired
+//     pack must be blank and must keep its owner's values until the owner releases it.
 //  3. password masking: unique marker values under the key "password" must not occur in
 //     any string of the pack after Process().
 //
@@ -835,6 +837,15 @@ func main() {
 		k.init()
 		c.SetAdd("types_covered", k.Name)
 	}
+	if c.Flavour == "race" {
+		// the race flavour exists for the concurrent pool monitor only (the other monitors
+		// are single-goroutine: the race detector has nothing to see there)
+		poolConcSection(c)
+		c.Finish()
+		fmt.Println("done")
+		return
+	}
+
 	nowLayout = measureLayout()
 	if os.Getenv("VERIF_WRITE_SPEC") == "1" {
 		if c.Shard == 0 {
@@ -869,6 +880,7 @@ func main() {
 
 	// 2. pool histories
 	poolSection(c)
+	poolConcSection(c)
 
 	// 3. password masking
 	var sqlKinds []*packKind
